@@ -44,17 +44,18 @@ var poolSrc = []string{
 	`null`, `true`, `false`,
 	`0`, `-1`, `1`, `255`, `256`, `2147483648`, `9007199254740993`, `9223372036854775807`, `9223372036854775808`,
 	`18446744073709551616`, `-9223372036854775808`, `1606938044258990275541962092341162602522202993782792835301376`,
-	`0.5`, `-0.0`, `1e308`, `-1e308`, `nan`, `infinite`, `-infinite`, `1.5`, `1e11`,
+	`0.5`, `-0.0`, `1e308`, `-1e308`, `nan`, `infinite`, `-infinite`, `1.5`, `1e11`, `1e18`,
 	`""`, `"a"`, `("a" * 8192)`, `"a\u0000b"`, `"å中😀"`, `"mp3"`, `"."`, `"f"`, `"[1,2"`,
 	`([255,254,0] | tobytes)`, `([1,2,3] | tobits)`, `([1,2,3,4] | tobits[3:17])`, `([] | tobytes)`,
 	`[]`, `[1,[2,[3]]]`, `[[]]`, `["a",1,null]`, `[256]`, `[-1]`,
-	`{}`, `{"a":{"b":[1]}}`, `{"":1}`,
+	`{}`, `{"a":{"b":[1]}}`, `{"":1}`, `{"":{"":[{"":1}]}, "#text": "t", "-a": "v"}`,
 	`("[1,{\"a\":2}]" | json)`, `("[1,{\"a\":2}]" | json | .[1])`,
 	`([0x83,0xa1,97,1,0xa1,98,0x92,0xcb,0x3f,0xf0,0,0,0,0,0,0,0xc0,0xa1,99,0xc4,2,0xde,0xad] | tobytes | msgpack)`,
 	`([0x83,0xa1,97,1,0xa1,98,0x92,0xcb,0x3f,0xf0,0,0,0,0,0,0,0xc0,0xa1,99,0xc4,2,0xde,0xad] | tobytes | msgpack | .pairs[0].key)`,
 	`("f" | open)`,
 	`{"indent":-1}`, `{"indent":1048576}`, `{"indent":-3, "array": true}`, `{"line_bytes":-5}`, `{"line_bytes":0}`, `{"bits_format":"nope"}`,
 	`{"unit":0}`, `{"unit":-8}`, `{"display_bytes":-1, "depth":-1}`, `{"addrbase":1, "sizebase":99}`, `{"force":"x", "skip_gaps": 5}`,
+	`{"indent":1e18}`, `{"line_bytes":1e18, "display_bytes": 1e18}`, `{"attribute_prefix":""}`, `{"attribute_prefix":"", "indent": 1, "array": true}`, `{"depth": 1e18, "addrbase": 1e18}`,
 	`{"indent":"x", "comma":"", "comment":"ab"}`, `{"array":1, "seq":"x", "attribute_prefix": 1}`, `{"width": -1, "color": 7, "unicode": null}`,
 }
 
